@@ -7,6 +7,7 @@ import (
 	"encoding/json"
 	"fmt"
 	"go/ast"
+	"go/types"
 	"io"
 	"os"
 	"path/filepath"
@@ -32,6 +33,7 @@ func checkC18(p *Prog, c *Check) {
 	c18Mount(p, c)
 	c18Spec(p, c)
 	configPass(p, c, "C18-R5")
+	c18ParamPattern(p, c)
 }
 
 func c18Middleware(p *Prog, c *Check) {
@@ -146,20 +148,49 @@ func c18Middleware(p *Prog, c *Check) {
 	}
 	fo, err := p.Func("keyper/kproapi.findOperation")
 	if c.Must(err) {
-		fi := p.Info(fo)
 		c.Analysed(shortFn(fo))
 		m := 0
-		for _, r := range returnsOf(fo) {
-			t := fi.T(r.Results[0])
-			if t.K == TNil {
-				continue
+		// the method → operation mapping: in findOperation or in a helper of the package that it hands
+		// the request's method to
+		type mapper struct {
+			fn     *ssa.Function
+			method *Term // the helper's parameter that carries the request's method
+		}
+		mappers := []mapper{{fo, p.Info(fo).T(fo.Params[2])}}
+		for _, b := range fo.Blocks {
+			for _, in := range b.Instrs {
+				hc, isCall := in.(*ssa.Call)
+				if !isCall {
+					continue
+				}
+				g := hc.Common().StaticCallee()
+				if g == nil || !inModule(g) || g.Blocks == nil || fnPkgPath(g) != fnPkgPath(fo) || isGeneratedFile(p.fileOf(g)) {
+					continue
+				}
+				g = origin(g)
+				for i, a := range hc.Common().Args {
+					if a == ssa.Value(fo.Params[2]) && i < len(g.Params) {
+						c.Analysed(shortFn(g))
+						mappers = append(mappers, mapper{g, p.Info(g).T(g.Params[i])})
+					}
+				}
 			}
-			m++
-			key := "findOperation:ret@" + t.s[strings.LastIndex(t.s, ".")+1:]
-			bnd := Binds{"m": fi.T(fo.Params[2])}
-			a, has := findAtom(fi.FactsAt(r), "$m == $c", bnd)
-			okM := has && t.K == TField && bnd["c"].K == TConst && strings.EqualFold(strings.Trim(bnd["c"].s, `"`), t.Name)
-			c.Result(okM, rule, key, p.siteOf(r), shortFn(fo), "return pathItem."+t.Name, "the operation returned does not belong to the request's method", a.s)
+		}
+		for _, mp := range mappers {
+			fo := mp.fn
+			fi := p.Info(fo)
+			for _, r := range returnsOf(fo) {
+				t := fi.T(r.Results[0])
+				if t.K != TField || !strings.HasSuffix(types.TypeString(r.Results[0].Type(), relQual), "openapi3.Operation") {
+					continue
+				}
+				m++
+				key := "findOperation:ret@" + t.s[strings.LastIndex(t.s, ".")+1:]
+				bnd := Binds{"m": mp.method}
+				a, has := findAtom(fi.FactsAt(r), "$m == $c", bnd)
+				okM := has && t.K == TField && bnd["c"].K == TConst && strings.EqualFold(strings.Trim(bnd["c"].s, `"`), t.Name)
+				c.Result(okM, rule, key, p.siteOf(r), shortFn(fo), "return pathItem."+t.Name, "the operation returned does not belong to the request's method", a.s)
+			}
 		}
 		c.Floor(rule+".findOperation", m, 4)
 	}
@@ -203,6 +234,30 @@ func c18Mount(p *Prog, c *Check) {
 		ok = fi.T(receiverOf(use)).s == fi.T(mux.Common().Args[1]).s || strings.Contains(fi.T(mux.Common().Args[1]).s, fi.T(receiverOf(use)).s)
 	}
 	c.Result(ok, rule, "setupAPIRouter:use-before-routes", p.Rel(fn.Pos()), shortFn(fn), "router.Use(ConfigMiddleware(cfg.GetEnableWriteOperations())) before HandlerFromMux(srv, router)", "the read-only middleware is not installed (with the configured flag, on the same router) before the API routes are registered", "Use dominates HandlerFromMux, same router")
+	// the guarded registration is the only one: every other call of a generated route registrar would
+	// serve the same handlers on a router without the switch
+	nreg := 0
+	for _, f := range p.Funcs {
+		if isTestScaffold(f) || isGeneratedFile(p.fileOf(f)) {
+			continue
+		}
+		for _, b := range f.Blocks {
+			for _, in := range b.Instrs {
+				ci, isCI := in.(ssa.CallInstruction)
+				if !isCI {
+					continue
+				}
+				g := ci.Common().StaticCallee()
+				if g == nil || relPkg(fnPkgPath(g)) != "keyper/kproapi" || !strings.HasPrefix(g.Name(), "Handler") || !isGeneratedFile(p.fileOf(g)) {
+					continue
+				}
+				nreg++
+				okR := ok && ci == mux
+				c.Result(okR, rule, "route-registration@"+shortFn(f)+":"+g.Name(), p.siteOf(ci), shortFn(f), "registration of the API routes ("+g.Name()+")", "the generated API handlers are (also) registered on a router that does not carry the read-only middleware: every operation, write operations included, is reachable there whatever the switch says", "the one registration behind ConfigMiddleware")
+			}
+		}
+	}
+	c.Floor(rule+".registrations", nreg, 1)
 	// the flag itself: every implementation of GetEnableWriteOperations returns true only when the
 	// read-only switch is off
 	nflag := 0
